@@ -137,13 +137,16 @@ where
             trigger: value.get_trigger(value.path().into_iter().collect()),
             get_trigger: Arc::new(move |path| value.get_trigger(path)),
             read: Arc::new(move || value.reader().map(StoreFieldReader::new)),
-            // like `Write for Store`: the store's raw writer only notifies the root's
-            // `children` trigger, so it is wrapped in a guard that notifies the store itself
-            // (`this`, which every reader of a descendant field tracks, and `children`)
+            // the store's raw writer only notifies the root's `children` trigger, but every
+            // reader of a descendant field tracks the root's `this` trigger: as in
+            // `Subfield::writer`, untrack the raw writer (so that `untrack()` on the result,
+            // e.g. by `Patch::patch` or by a subfield of this field, silences it completely)
+            // and notify the triggers of this path, `children` first and `this` last
             write: Arc::new(move || {
-                value.writer().map(|writer| {
-                    StoreFieldWriter::new(WriteGuard::new(value, writer))
-                })
+                let mut writer = value.writer()?;
+                writer.untrack();
+                let triggers = value.triggers_for_current_path();
+                Some(StoreFieldWriter::new(WriteGuard::new(triggers, writer)))
             }),
             keys: Arc::new(move || value.keys()),
             track_field: Arc::new(move || value.track_field()),
@@ -174,12 +177,12 @@ where
             write: Arc::new({
                 let value = value.clone();
                 move || {
-                    value.writer().map(|writer| {
-                        StoreFieldWriter::new(WriteGuard::new(
-                            value.clone(),
-                            writer,
-                        ))
-                    })
+                    let mut writer = value.writer()?;
+                    writer.untrack();
+                    let triggers = value.triggers_for_current_path();
+                    Some(StoreFieldWriter::new(WriteGuard::new(
+                        triggers, writer,
+                    )))
                 }
             }),
             keys: Arc::new({
